@@ -100,6 +100,11 @@ inductive Op where
   | renumber (start : Nat)
   | delPages (nums : List Nat)
   | addContent (page : ObjId) (content : Bytes)
+  | removeAnnot (id : ObjId)
+  | addXObject (page : ObjId) (name : Bytes) (xid : ObjId)
+  | addGState (page : ObjId) (name : Bytes) (gid : ObjId)
+  | changeStream (sid : ObjId) (content deflated : Bytes)
+  | changePage (page : ObjId) (content deflated : Bytes)
 
 inductive Out where
   | unit
@@ -147,19 +152,22 @@ def decCounts : Nat → Objects → Option ObjId → Option Objects
       decCounts fuel (os.set id (.dict pt')) ((Dict.get pt' PARENT).bind Obj.asRef)
     | _ => some os
 
+/-- one iteration of `delete_pages`: delete page number `n` (of the page list taken at entry), then
+decrement the `Count` of its ancestors -/
+def deletePage1 (pages : List ObjId) (d : Doc) (n : Nat) : Option Doc :=
+  match (if n = 0 then none else pages[n - 1]?) with
+  | none => some d
+  | some pid =>
+    match deleteObject d pid with
+    | (d', some page) =>
+      let parent := (page.asDict.bind fun pd => Dict.get pd PARENT).bind Obj.asRef
+      (decCounts (d'.objects.length + 1) d'.objects parent).map fun os => { d' with objects := os }
+    | (d', none) => some d'
+
 /-- `Document::delete_pages` -/
 def deletePages (d : Doc) (nums : List Nat) : Option Doc :=
   let pages := pageIter d.trailer d.objects
-  nums.foldl (fun (acc : Option Doc) n =>
-    acc.bind fun d =>
-      match (if n = 0 then none else pages[n - 1]?) with
-      | none => some d
-      | some pid =>
-        match deleteObject d pid with
-        | (d', some page) =>
-          let parent := (page.asDict.bind fun pd => Dict.get pd PARENT).bind Obj.asRef
-          (decCounts (d'.objects.length + 1) d'.objects parent).map fun os => { d' with objects := os }
-        | (d', none) => some d') (some d)
+  nums.foldl (fun (acc : Option Doc) n => acc.bind fun d => deletePage1 pages d n) (some d)
 
 /-- id of the last object of a reference chain (`dereference`'s first component, or the start id) -/
 def derefIdAux (os : Objects) : Nat → ObjId → Obj → Option ObjId
@@ -171,35 +179,175 @@ def derefIdAux (os : Objects) : Nat → ObjId → Obj → Option ObjId
       | n + 1 => derefIdAux os n (a, b) o'
   | _, cur, _ => some cur
 
+/-- `get_object_mut(id)`: the id whose object is finally borrowed (last id of the reference chain) -/
+def objectMutId (os : Objects) (id : ObjId) : Option ObjId :=
+  (os.get id).bind fun o => derefIdAux os Gen.DEREF_LIMIT id o
+
+/-- `self.get_object_mut(id).and_then(Object::as_dict_mut)` followed by `dict.set(key, value)` -/
+def setDictEntry (d : Doc) (id : ObjId) (key : Bytes) (v : Obj) : Doc × Out :=
+  match objectMutId d.objects id with
+  | none => (d, .err)
+  | some target =>
+    match d.objects.get target with
+    | some (.dict pd) => ({ d with objects := d.objects.set target (.dict (Dict.set pd key v)) }, .unit)
+    | _ => (d, .err)
+
+/-- the current content list as `add_page_contents` reads it -/
+def contentsList (page : Dict) : List Obj :=
+  match Dict.get page CONTENTS with
+  | some (.ref n g) => [.ref n g]
+  | some (.arr a) => a
+  | _ => []
+
+/-- `Document::add_object` -/
+def addObject (d : Doc) (o : Obj) : Doc := { d with maxId := d.maxId + 1, objects := d.objects.insert (d.maxId + 1, 0) o }
+
+/-- `Stream::new(dict, content)` -/
+def streamNew (dict : Dict) (content : Bytes) : Obj := .stream (Dict.set dict LENGTHE (.int content.length)) content
+
 /-- `Document::add_page_contents` -/
 def addPageContents (d : Doc) (pageId : ObjId) (content : Bytes) : Outcome (Doc × Out) :=
   match getDictionary d.objects pageId with
   | none => .ok (d, .err)
   | some page =>
-    let list : List Obj := match Dict.get page CONTENTS with
-      | some (.ref n g) => [.ref n g]
-      | some (.arr a) => a
-      | _ => []
     if d.maxId + 1 > U32_MAXE then .panic "add" else
-    let nid : ObjId := (d.maxId + 1, 0)
-    let os1 := d.objects.insert nid (.stream [(LENGTHE, .int content.length)] content)
-    let d1 := { d with objects := os1, maxId := d.maxId + 1 }
-    match os1.get pageId with
-    | none => .ok (d1, .err)
-    | some o =>
-      match derefIdAux os1 Gen.DEREF_LIMIT pageId o with
-      | none => .ok (d1, .err)
-      | some target =>
-        match os1.get target with
-        | some (.dict pd) => .ok ({ d1 with objects := os1.set target (.dict (Dict.set pd CONTENTS (.arr (list ++ [.ref nid.1 nid.2])))) }, .unit)
-        | _ => .ok (d1, .err)
+    .ok (setDictEntry (addObject d (streamNew [] content)) pageId CONTENTS
+          (.arr (contentsList page ++ [.ref (d.maxId + 1) 0])))
+
+/-! ### annotations, resources, content replacement -/
+
+def kAnnots : Bytes := [65, 110, 110, 111, 116, 115]
+def kResources : Bytes := [82, 101, 115, 111, 117, 114, 99, 101, 115]
+def kXObject : Bytes := [88, 79, 98, 106, 101, 99, 116]
+def kExtGState : Bytes := [69, 120, 116, 71, 83, 116, 97, 116, 101]
+def kFilter : Bytes := [70, 105, 108, 116, 101, 114]
+def kDecodeParms : Bytes := [68, 101, 99, 111, 100, 101, 80, 97, 114, 109, 115]
+def kFlateDecode : Bytes := [70, 108, 97, 116, 101, 68, 101, 99, 111, 100, 101]
+
+/-- `annots.retain(|o| o is not a reference to id)` -/
+def retainNotRef (id : ObjId) (a : List Obj) : List Obj := a.filter (fun o => !isRefTo id o)
+
+/-- `Document::remove_object` (removes an annotation reference from every page's `Annots`); the first
+page whose (dereferenced) object is no dictionary or has no direct `Annots` array ends the call with `Err` -/
+def removeAnnot (id : ObjId) : List ObjId → Doc → Doc × Out
+  | [], d => (d, .unit)
+  | pid :: rest, d =>
+    match objectMutId d.objects pid with
+    | none => (d, .err)
+    | some t =>
+      match d.objects.get t with
+      | some (.dict pd) =>
+        match Dict.get pd kAnnots with
+        | some (.arr a) =>
+          removeAnnot id rest { d with objects := d.objects.set t (.dict (Dict.set pd kAnnots (.arr (retainNotRef id a)))) }
+        | _ => (d, .err)
+      | _ => (d, .err)
+
+/-- where `get_or_create_resources` found the resource object: an object of its own, or the direct
+`Resources` entry of the page dictionary stored at `page` -/
+inductive ResLoc where
+  | obj (id : ObjId)
+  | entry (page : ObjId)
+
+def readLoc (os : Objects) : ResLoc → Option Obj
+  | .obj id => os.get id
+  | .entry t => match os.get t with
+    | some (.dict pd) => Dict.get pd kResources
+    | _ => none
+
+def writeLoc (os : Objects) (loc : ResLoc) (v : Obj) : Objects :=
+  match loc with
+  | .obj id => os.set id v
+  | .entry t => match os.get t with
+    | some (.dict pd) => os.set t (.dict (Dict.set pd kResources v))
+    | _ => os
+
+/-- `Document::get_or_create_resources`; `none` = `Err` -/
+def getOrCreateResources (d : Doc) (pageId : ObjId) : Option (Doc × ResLoc) :=
+  match getDictionary d.objects pageId with
+  | none => none
+  | some page =>
+    let resId := if Dict.has page kResources then (Dict.get page kResources).bind Obj.asRef else none
+    match resId with
+    | some rid => (objectMutId d.objects rid).map fun t => (d, .obj t)
+    | none =>
+      match objectMutId d.objects pageId with
+      | none => none
+      | some t =>
+        match d.objects.get t with
+        | some (.dict pd) =>
+          if Dict.has pd kResources then some (d, .entry t)
+          else some ({ d with objects := d.objects.set t (.dict (Dict.set pd kResources (.dict []))) }, .entry t)
+        | _ => none
+
+/-- `Document::add_xobject` -/
+def addXObject (d : Doc) (pageId : ObjId) (name : Bytes) (xid : ObjId) : Doc × Out :=
+  match getOrCreateResources d pageId with
+  | none => (d, .unit)
+  | some (d1, loc) =>
+    match readLoc d1.objects loc with
+    | some (.dict res) =>
+      let res1 := if Dict.has res kXObject then res else Dict.set res kXObject (.dict [])
+      match Dict.get res1 kXObject with
+      | some (.ref n g) =>
+        match objectMutId d1.objects (n, g) with
+        | none => (d1, .err)
+        | some t =>
+          match d1.objects.get t with
+          | some (.dict xd) => ({ d1 with objects := d1.objects.set t (.dict (Dict.set xd name (.ref xid.1 xid.2))) }, .unit)
+          | _ => (d1, .err)
+      | some (.dict xd) =>
+        ({ d1 with objects := writeLoc d1.objects loc (.dict (Dict.set res1 kXObject (.dict (Dict.set xd name (.ref xid.1 xid.2))))) }, .unit)
+      | _ => (d1, .err)
+    | _ => (d1, .unit)
+
+/-- `Document::add_graphics_state` -/
+def addGraphicsState (d : Doc) (pageId : ObjId) (name : Bytes) (gid : ObjId) : Doc × Out :=
+  match getOrCreateResources d pageId with
+  | none => (d, .unit)
+  | some (d1, loc) =>
+    match readLoc d1.objects loc with
+    | some (.dict res) =>
+      let res1 := if Dict.has res kExtGState then res else Dict.set res kExtGState (.dict [])
+      match Dict.get res1 kExtGState with
+      | some (.dict sd) =>
+        ({ d1 with objects := writeLoc d1.objects loc (.dict (Dict.set res1 kExtGState (.dict (Dict.set sd name (.ref gid.1 gid.2))))) }, .unit)
+      | _ => (d1, .err)
+    | _ => (d1, .unit)
+
+/-- `Stream::set_plain_content` then `Stream::compress` on a stream's parts. `deflated` is what
+`ZlibEncoder(best)` returns for `content` (external codec: a parameter, never re-implemented). -/
+def plainThenCompress (deflated : Bytes) (dict : Dict) (content : Bytes) : Obj :=
+  let d1 := Dict.set (Dict.remove (Dict.remove dict kDecodeParms) kFilter) LENGTHE (.int content.length)
+  if deflated.length + Gen.COMPRESS_MARGIN < content.length then
+    .stream (Dict.set (Dict.set (Dict.remove d1 kDecodeParms) kFilter (.name kFlateDecode)) LENGTHE (.int deflated.length)) deflated
+  else .stream d1 content
+
+/-- `Document::change_content_stream` -/
+def changeContentStream (deflate : Bytes → Bytes) (d : Doc) (sid : ObjId) (content : Bytes) : Doc :=
+  match d.objects.get sid with
+  | some (.stream dict _) => { d with objects := d.objects.set sid (plainThenCompress (deflate content) dict content) }
+  | _ => d
+
+/-- `Document::change_page_content` -/
+def changePageContent (deflate : Bytes → Bytes) (d : Doc) (pageId : ObjId) (content : Bytes) : Outcome (Doc × Out) :=
+  match (getDictionary d.objects pageId).bind fun page => Dict.get page CONTENTS with
+  | none => .ok (d, .err)
+  | some (.ref n g) => .ok (changeContentStream deflate d (n, g) content, .unit)
+  | some (.arr [.ref n g]) => .ok (changeContentStream deflate d (n, g) content, .unit)
+  | some (.arr [_]) => .ok (d, .unit)
+  | some (.arr _) =>
+    if d.maxId + 1 > U32_MAXE then .panic "add" else
+    let d1 := addObject d (streamNew [] content)
+    -- `if let Ok(Object::Dictionary(dict)) = self.get_object_mut(page_id) { dict.set("Contents", new_stream) }`
+    .ok ((setDictEntry d1 pageId CONTENTS (.ref (d.maxId + 1) 0)).1, .unit)
+  | some _ => .ok (d, .unit)
 
 /-- one editing call -/
 def step (d : Doc) : Op → Outcome (Doc × Out)
   | .newId => if d.maxId + 1 > U32_MAXE then .panic "add" else .ok ({ d with maxId := d.maxId + 1 }, .id (d.maxId + 1, 0))
-  | .add o => if d.maxId + 1 > U32_MAXE then .panic "add" else
-      .ok ({ d with maxId := d.maxId + 1, objects := d.objects.insert (d.maxId + 1, 0) o }, .id (d.maxId + 1, 0))
-  | .set id o => .ok ({ d with objects := d.objects.insert id o }, .unit)
+  | .add o => if d.maxId + 1 > U32_MAXE then .panic "add" else .ok (addObject d o, .id (d.maxId + 1, 0))
+  | .set id o => .ok ({ d with maxId := max d.maxId id.1, objects := d.objects.insert id o }, .unit)
   | .del id => let r := deleteObject d id; .ok (r.1, .obj r.2)
   | .prune => let r := pruneObjects d; .ok (r.1, .ids r.2)
   | .delZero => let r := deleteZeroLengthStreams d; .ok (r.1, .ids r.2)
@@ -211,6 +359,11 @@ def step (d : Doc) : Op → Outcome (Doc × Out)
     | some d' => .ok (d', .unit)
     | none => .err "hang"
   | .addContent page content => addPageContents d page content
+  | .removeAnnot id => .ok (removeAnnot id (pageIter d.trailer d.objects) d)
+  | .addXObject page name xid => .ok (addXObject d page name xid)
+  | .addGState page name gid => .ok (addGraphicsState d page name gid)
+  | .changeStream sid content deflated => .ok (changeContentStream (fun _ => deflated) d sid content, .unit)
+  | .changePage page content deflated => changePageContent (fun _ => deflated) d page content
 
 /-- a program -/
 def runOps (d : Doc) : List Op → Outcome Doc
